@@ -5,6 +5,7 @@
    (None = KeyError) having written the statements [plan s] and the imports files [store s]. *)
 From Coq Require Import List NArith Bool Arith Relations.
 From PV Require Import Plan.Model Plan.Proofs Plan.StmtProofs Plan.CoverProofs Plan.GraphProofs.
+From PV Require Import Plan.Text Plan.ReaderProofs Plan.CommandProofs Plan.NamesProofs.
 Import ListNotations.
 
 (* ---- 1. every requested file that is analysed at all is checked exactly once ------------- *)
@@ -373,3 +374,259 @@ Example ex_graph_sources :
   map (fun gd => (map m_name (fst gd), map m_name (snd gd))) (deps_from_import_graph ex_graph) =
   [([1], []); ([2], [1]); ([4], [2]); ([6], [4; 2; 2])]%N.
 Proof. vm_compute. reflexivity. Qed.
+
+(* ============================================================================================ *)
+(* ---- 9. the *.imports files: PytypeRunner.write_imports then imports_map_loader (Plan/Text.v) ---- *)
+Local Open Scope N_scope.
+(* Strings are lists of code points.  items_ok: every key is non-empty, does not start with a str.isspace()
+   character and contains no ' ', "\n", "\r"; every value is non-empty, does not end with a str.isspace()
+   character and contains no "\n", "\r".  Spaces, colons, dollars (and leading blanks) in VALUES survive. *)
+Theorem imports_file_roundtrip : forall im : items,
+  items_ok im = true -> read_from_file (write_imports im) = Some im.
+Proof. exact imports_file_roundtrip_lemma. Qed.
+Print Assumptions imports_file_roundtrip.
+
+(* the values the plan writes - join(pyi_dir, key + '.pyi' [+ '-1']) and join(imports_dir, 'default.pyi') -
+   always meet the value condition when the two directories and the keys contain no line break: any other
+   character (space, colon, dollar, ...) in the output directory survives *)
+Theorem plan_imports_roundtrip : forall pyi_dir imports_dir kstr (im : imports),
+  clean pyi_dir = true -> clean imports_dir = true ->
+  (forall k p, In (k, p) im -> key_ok (kstr k) = true) ->
+  (forall k p k' f, In (k, p) im -> p = PPyi k' f -> clean (kstr k') = true) ->
+  read_from_file (write_imports (render_imports pyi_dir imports_dir kstr im)) =
+  Some (render_imports pyi_dir imports_dir kstr im).
+Proof. exact plan_imports_roundtrip_lemma. Qed.
+Print Assumptions plan_imports_roundtrip.
+
+(* the whole reader (build_from_file = _read_from_file, _build_multimap, _finalize): for distinct keys without
+   an extension (splitext leaves them alone) other than "%", the map it returns is exactly the written one with
+   os.path.abspath applied to the values, plus `dir/__init__ -> os.devnull` entries under keys that were not
+   written; nothing is reported unused.  abspath/devnull are parameters (any function / string). *)
+Theorem reader_returns_exactly_the_map : forall (abspath : str -> str) devnull (its : items),
+  its <> [] -> items_ok its = true ->
+  (forall kv, In kv its -> no_ext (fst kv) = true) -> NoDup (map fst its) -> ~ In [c_pct] (map fst its) ->
+  exists extra,
+    build_from_file abspath devnull (write_imports its) =
+      Some (Some (map (fun kv => (fst kv, abspath (snd kv))) its ++ extra, [])) /\
+    forall e, In e extra -> snd e = devnull /\ ~ In (fst e) (map fst its).
+Proof. exact build_from_file_exact_lemma. Qed.
+Print Assumptions reader_returns_exactly_the_map.
+
+(* each hypothesis is needed.  "a b" -> the reader returns key "a", path "b /o/a b.pyi" *)
+Definition v_pyi : str := [47; 111; 47; 97; 46; 112; 121; 105].                    (* "/o/a.pyi" *)
+Theorem imports_key_with_space_refuted : exists k v,
+  val_ok v = true /\ read_from_file (write_imports [(k, v)]) = Some [([97], 98 :: 32 :: v)] /\
+  read_from_file (write_imports [(k, v)]) <> Some [(k, v)].
+Proof. exists [97; 32; 98], v_pyi. vm_compute. repeat split; discriminate. Qed.
+Print Assumptions imports_key_with_space_refuted.
+
+(* a key starting with a tab (or U+00A0, U+2028, ...) loses it to line.strip() *)
+Theorem imports_key_leading_blank_refuted : exists k v,
+  val_ok v = true /\ no_char c_sp k = true /\ clean k = true /\
+  read_from_file (write_imports [(k, v)]) <> Some [(k, v)].
+Proof. exists [160; 97], v_pyi. vm_compute. repeat split; discriminate. Qed.
+Print Assumptions imports_key_leading_blank_refuted.
+
+(* a carriage return anywhere is a line break for the reader (universal newlines): one entry becomes a
+   ValueError (the second half has no space) *)
+Theorem imports_carriage_return_refuted : exists k v,
+  key_ok k = true /\ no_char c_nl v = true /\ read_from_file (write_imports [(k, v)]) = None.
+Proof. exists [97], [47; 111; 13; 112]. vm_compute. repeat split. Qed.
+Print Assumptions imports_carriage_return_refuted.
+
+(* a value ending in white space loses it; cannot arise from the plan (plan_imports_roundtrip) *)
+Theorem imports_value_trailing_blank_refuted : exists k v,
+  key_ok k = true /\ clean v = true /\ read_from_file (write_imports [(k, v)]) <> Some [(k, v)].
+Proof. exists [97], [47; 111; 32]. vm_compute. repeat split; discriminate. Qed.
+Print Assumptions imports_value_trailing_blank_refuted.
+
+(* a key whose last component has an extension (module_to_output_path of a file "b.c.py") is filed under the
+   stem, and the key "%" is diverted to the unused list *)
+Theorem reader_key_with_extension_refuted : exists k v,
+  items_ok [(k, v)] = true /\
+  build_from_file (fun x => x) [] (write_imports [(k, v)]) = Some (Some ([([97; 47; 98], v); ([97; 47; 95; 95; 105; 110; 105; 116; 95; 95], [])], [])).
+Proof. exists [97; 47; 98; 46; 99], v_pyi. vm_compute. split; reflexivity. Qed.
+Print Assumptions reader_key_with_extension_refuted.
+
+Theorem reader_percent_key_refuted : exists v,
+  items_ok [([c_pct], v)] = true /\ no_ext [c_pct] = true /\
+  build_from_file (fun x => x) [] (write_imports [([c_pct], v)]) = Some (Some ([], [v])).
+Proof. exists v_pyi. vm_compute. repeat split. Qed.
+Print Assumptions reader_percent_key_refuted.
+
+(* non-vacuity: output directory "/my dir/$x:y" - two entries, one the default stub *)
+Example ex_imports_roundtrip :
+  let pyi := [47; 109; 121; 32; 100; 105; 114; 47; 36; 120; 58; 121; 47; 112; 121; 105] in   (* "/my dir/$x:y/pyi" *)
+  let imp := [47; 109; 121; 32; 100; 105; 114; 47; 36; 120; 58; 121; 47; 105] in              (* "/my dir/$x:y/i" *)
+  let kstr := fun k : N => if (k =? 1)%N then [112; 47; 97] else [98] in                  (* "p/a", "b" *)
+  let im := render_imports pyi imp kstr [(1%N, PPyi 1 true); (2%N, PDefault)] in
+  items_ok im = true /\ read_from_file (write_imports im) = Some im /\
+  map snd im = [pyi ++ [47; 112; 47; 97; 46; 112; 121; 105; 45; 49]; imp ++ [47; 100; 101; 102; 97; 117; 108; 116; 46; 112; 121; 105]].
+Proof. vm_compute. repeat split; reflexivity. Qed.
+
+(* ---- 10. the rule block and the command handed to /bin/sh -------------------------------------- *)
+(* the command line get_pytype_command_for_ninja joins with ' ' is a list of words: literal words and the
+   four references $imports $out $module $in *)
+Theorem command_text_of_words : forall words, command_text (map classify words) = join_sp words.
+Proof. exact command_text_classify. Qed.
+Print Assumptions command_text_of_words.
+
+(* the rule block as written, read by the model of ninja's parser: the command is the word list with TVar
+   tokens for the references *)
+Theorem rule_block_roundtrip : forall action ws rest,
+  ident action -> sh_plain_str action -> ws <> [] -> (forall w, In w ws -> cmd_word_ok w) ->
+  parse_rule (render_rule action (map cword_text ws) ++ rest) =
+  Some (action, [(kw_command, join_toks (map cword_toks ws));
+                 (kw_description, lits action ++ [TLit c_sp; TVar kw_module])], rest).
+Proof. exact rule_block_roundtrip_lemma. Qed.
+Print Assumptions rule_block_roundtrip.
+
+(* ninja's evaluation of the command for the edge of statement t ($in/$out shell-escaped by
+   GetShellEscapedString, $imports/$module inserted raw) followed by the shell's word splitting yields exactly
+   the words with the references replaced by the statement's input file, output path, imports file and module
+   name - for ANY non-empty input/output path (spaces, colons, dollars, quotes), and for imports paths and
+   module names made of characters the shell leaves alone (sh_plain: everything except blank ' \ $ NUL \n \r
+   double quote ` ; & | < > ( ) * ? [ ] # ~ { } !  - colons are fine, spaces and dollars are not) *)
+Theorem command_names_the_step : forall env ws t rest,
+  (forall w, In w ws -> cmd_word_ok w) ->
+  t_input t <> [] -> t_out t <> [] -> sh_plain_str (t_imports t) -> sh_plain_str (t_module t) ->
+  exists cmd, lex_value (command_text ws ++ c_nl :: rest) = LDone cmd rest /\
+              sh_words env (edge_command cmd t) = Some (map (subst t) ws).
+Proof. exact command_argv_lemma. Qed.
+Print Assumptions command_names_the_step.
+
+(* "x --imports_info $imports -o $out --module-name $module $in" *)
+Definition ex_words : list cword :=
+  [WLit [120]; WLit [45; 45; 105; 109; 112; 111; 114; 116; 115; 95; 105; 110; 102; 111]; WVar kw_imports;
+   WLit [45; 111]; WVar kw_out; WLit [45; 45; 109; 111; 100; 117; 108; 101; 45; 110; 97; 109; 101]; WVar kw_module;
+   WVar kw_in].
+Definition ex_cmd : list tok := join_toks (map cword_toks ex_words).
+Example ex_words_ok : forall w, In w ex_words -> cmd_word_ok w.
+Proof.
+  intros w H. simpl in H.
+  repeat (destruct H as [<-|H];
+          [ first [ split; [discriminate | intros c Hc; simpl in Hc; repeat (destruct Hc as [<-|Hc]; [reflexivity|]); destruct Hc]
+                  | unfold cmd_word_ok, is_plan_var; tauto ] |]).
+  destruct H.
+Qed.
+
+Ltac chars := intros c H; simpl in H;
+  repeat (destruct H as [<-|H]; [unfold path_char, value_char; repeat split; discriminate|]); destruct H.
+
+(* an output directory with a space: the imports file path is split in two by the shell *)
+Theorem command_space_in_imports_refuted : exists t,
+  good_path (t_out t) /\ good_path (t_input t) /\ good_value (t_imports t) /\ sh_plain_str (t_module t) /\
+  sh_words (fun _ => []) (edge_command ex_cmd t) =
+    Some [[120]; [45; 45; 105; 109; 112; 111; 114; 116; 115; 95; 105; 110; 102; 111]; [47; 111]; [112; 47; 109];
+          [45; 111]; t_out t; [45; 45; 109; 111; 100; 117; 108; 101; 45; 110; 97; 109; 101]; t_module t; t_input t] /\
+  sh_words (fun _ => []) (edge_command ex_cmd t) <> Some (map (subst t) ex_words).
+Proof.
+  exists (Stmt [47; 111; 32; 112; 47; 97] [] [47; 115; 32; 36; 58; 39; 47; 97] [] [47; 111; 32; 112; 47; 109] [97]).
+  cbn [t_out t_input t_imports t_module].
+  split; [split; [discriminate | chars]|].
+  split; [split; [discriminate | chars]|].
+  split; [chars|].
+  split; [split; [discriminate | intros c [<-|[]]; reflexivity]|].
+  split; [vm_compute; reflexivity | vm_compute; discriminate].
+Qed.
+Print Assumptions command_space_in_imports_refuted.
+
+(* a dollar sign in the module name (file a$b.py): the shell expands $b (here: unset) in both the imports
+   path and the module name *)
+Theorem command_dollar_in_module_refuted : exists t,
+  t_input t <> [] /\ t_out t <> [] /\ good_value (t_imports t) /\ good_value (t_module t) /\
+  sh_words (fun _ => []) (edge_command ex_cmd t) =
+    Some [[120]; [45; 45; 105; 109; 112; 111; 114; 116; 115; 95; 105; 110; 102; 111]; [47; 105; 47; 97; 46; 105];
+          [45; 111]; t_out t; [45; 45; 109; 111; 100; 117; 108; 101; 45; 110; 97; 109; 101]; [97]; t_input t] /\
+  sh_words (fun _ => []) (edge_command ex_cmd t) <> Some (map (subst t) ex_words).
+Proof.
+  exists (Stmt [47; 111; 47; 97; 36; 98] [] [47; 115; 47; 97; 36; 98] [] [47; 105; 47; 97; 36; 98; 46; 105] [97; 36; 98]).
+  cbn [t_out t_input t_imports t_module].
+  split; [discriminate|]. split; [discriminate|].
+  split; [chars|]. split; [chars|].
+  split; [vm_compute; reflexivity | vm_compute; discriminate].
+Qed.
+Print Assumptions command_dollar_in_module_refuted.
+
+(* non-vacuity: input "/s $:'/a" and output "/o p/a" (space, dollar, colon, quote) with a plain imports path
+   and module name: all four survive *)
+Example ex_command :
+  let t := Stmt [47; 111; 32; 112; 47; 97] [] [47; 115; 32; 36; 58; 39; 47; 97] [] [47; 105; 58; 47; 109] [112; 46; 97] in
+  edge_command ex_cmd t =
+    [120; 32; 45; 45; 105; 109; 112; 111; 114; 116; 115; 95; 105; 110; 102; 111; 32; 47; 105; 58; 47; 109; 32; 45; 111; 32;
+     39; 47; 111; 32; 112; 47; 97; 39; 32; 45; 45; 109; 111; 100; 117; 108; 101; 45; 110; 97; 109; 101; 32; 112; 46; 97; 32;
+     39; 47; 115; 32; 36; 58; 39; 92; 39; 39; 47; 97; 39] /\
+  sh_words (fun _ => [120]) (edge_command ex_cmd t) = Some (map (subst t) ex_words).
+Proof. vm_compute. split; reflexivity. Qed.
+
+(* ---- 11. module names and keys (module_utils, _module_to_output_path, the loader's lookup) -------- *)
+(* plain_comp: non-empty, no '/' and no '.'.  For a file c1/.../cn.py below its pythonpath entry, named
+   c1.....cn: the key written into the imports maps is c1/.../cn, which is the path the module loader of
+   pytype-single looks up for that name, has no extension for the reader to strip, and (when the name has no
+   ".__init__" inside) path_to_module_name maps it back to the name *)
+Theorem key_link : forall cs, cs <> [] -> (forall c, In c cs -> plain_comp c) ->
+  let target := join_c c_slash cs ++ c_dot :: s_py in
+  let name := join_c c_dot cs in
+  let key := module_to_output_path target name in
+  key = join_c c_slash cs /\ key = loader_path name /\ no_ext key = true /\
+  (no_init name = true -> path_to_module_name key = Some name).
+Proof. exact key_link_lemma. Qed.
+Print Assumptions key_link.
+
+(* ... and is a key the *.imports reader returns unchanged when no component contains ' ', "\n", "\r" and the
+   first character is not white space *)
+Theorem key_survives_the_imports_file : forall cs, cs <> [] -> (forall c, In c cs -> plain_comp c) ->
+  (forall c x, In c cs -> In x c -> x <> c_sp /\ x <> c_nl /\ x <> c_cr) ->
+  (forall c r x, cs = (x :: c) :: r -> py_space x = false) ->
+  key_ok (join_c c_slash cs) = true.
+Proof. exact key_ok_comps_lemma. Qed.
+Print Assumptions key_survives_the_imports_file.
+
+(* module_utils.path_to_module_name on the file name, and infer_module's split at the pythonpath entry *)
+Theorem path_to_module_name_file : forall cs, cs <> [] -> (forall c, In c cs -> plain_comp c) ->
+  no_init (join_c c_dot cs) = true ->
+  starts_with s_pardir (dirname (join_c c_slash cs ++ c_dot :: s_py)) = false ->
+  path_to_module_name (join_c c_slash cs ++ c_dot :: s_py) = Some (join_c c_dot cs).
+Proof. exact path_to_module_name_file_lemma. Qed.
+Print Assumptions path_to_module_name_file.
+
+Theorem infer_module_split : forall pythonpath filename,
+  let m := infer_module filename pythonpath in
+  filename = cm_path m ++ cm_target m /\ cm_name m = path_to_module_name (cm_target m) /\
+  (cm_path m = [] \/ (ends_with_slash (cm_path m) = true /\
+                      exists p, In p pythonpath /\ (cm_path m = p \/ cm_path m = p ++ [c_slash]))).
+Proof. exact infer_module_split_lemma. Qed.
+Print Assumptions infer_module_split.
+
+(* a directory with a dot in its name: file "a.b/c.py" is named a.b.c, its key is "a.b/c", but the loader
+   looks up "a/b/c" *)
+Theorem dotted_directory_key_refuted : exists target name,
+  path_to_module_name target = Some name /\ module_to_output_path target name <> loader_path name.
+Proof. exists [97; 46; 98; 47; 99; 46; 112; 121], [97; 46; 98; 46; 99]. vm_compute. split; [reflexivity | discriminate]. Qed.
+Print Assumptions dotted_directory_key_refuted.
+
+(* non-vacuity and two quirks kept by the model: "/src/pkg/mod.py" under pythonpath ["/x"; "/src"];
+   str.partition cuts at the first ".__init__" even inside a component ("a/__init__x.py" is named "a");
+   pkg/__init__.py: resolved_file_to_module appends ".__init__", the key is "pkg/__init__", which is what the
+   loader tries first for `import pkg` *)
+Example ex_names :
+  infer_module [47; 115; 114; 99; 47; 112; 107; 103; 47; 109; 111; 100; 46; 112; 121] [[47; 120]; []; [47; 115; 114; 99]] =
+    CModule [47; 115; 114; 99; 47] [112; 107; 103; 47; 109; 111; 100; 46; 112; 121] (Some [112; 107; 103; 46; 109; 111; 100]) /\
+  path_to_module_name [97; 47; 95; 95; 105; 110; 105; 116; 95; 95; 120; 46; 112; 121] = Some [97] /\
+  path_to_module_name [46; 46; 47; 97; 46; 112; 121] = None /\
+  path_to_module_name [97; 46; 116; 120; 116] = None /\
+  (let '(p, t, n) := resolved_file_to_module [47; 115; 47; 112; 107; 103; 47; 95; 95; 105; 110; 105; 116; 95; 95; 46; 112; 121]
+                        [112; 107; 103; 47; 95; 95; 105; 110; 105; 116; 95; 95; 46; 112; 121] [112; 107; 103] in
+   p = [47; 115; 47] /\ n = [112; 107; 103; 46; 95; 95; 105; 110; 105; 116; 95; 95] /\
+   module_to_output_path t n = loader_init_path [112; 107; 103]).
+Proof. vm_compute. repeat split; reflexivity. Qed.
+Example ex_key_link_hyp : plain_comp [112; 107; 103] /\ plain_comp [109; 111; 100] /\
+  no_init (join_c c_dot [[112; 107; 103]; [109; 111; 100]]) = true.
+Proof.
+  assert (P : forall c : str, c <> [] ->
+              forallb (fun y => negb (y =? c_slash) && negb (y =? c_dot)) c = true -> plain_comp c).
+  { intros c Hn Hb. split; auto. intros y Hy. rewrite forallb_forall in Hb. specialize (Hb y Hy).
+    rewrite andb_true_iff, !negb_true_iff, !N.eqb_neq in Hb. exact Hb. }
+  split; [apply P; [discriminate | reflexivity]|]. split; [apply P; [discriminate | reflexivity]|].
+  vm_compute. reflexivity.
+Qed.
